@@ -18,8 +18,7 @@ LIST = {"pre": "preorder", "in": "inorder", "post": "postorder"}
 
 def build(case):
     s = tuple_shape(case["shape"])
-    root = shapes.build_expr(s) if case["cls"] == "expr" else shapes.build_btn(s)
-    return root
+    return shapes.build(s, "expr" if case["cls"] == "expr" else case["cls"])
 
 
 def tuple_shape(s):
@@ -36,7 +35,7 @@ def make_event(case):
         nodes = list(objs.keep)
         for k, nd in enumerate(nodes):
             nd.id = "id%d" % (k % max(1, len(nodes) - 1))  # one duplicated id when n >= 2
-    ev = {"typ": "visit", "cls": case["cls"], "root": objs.of(root), "orders": {}}
+    ev = {"typ": "visit", "cls": "expr" if case["cls"] in ("expr", "uniform") else "btn", "root": objs.of(root), "orders": {}}
     for o, meth in ORD.items():
         calls = []
 
@@ -77,8 +76,8 @@ def make_event(case):
         lf = safe(nd.is_leaf)
         q["leaf"].append(bool(lf) if not isinstance(lf, str) else "exc")
     ev["q"] = q
-    ev["h"] = project.snapshot(objs, payload=(case["cls"] == "expr"))
-    if case["cls"] == "expr":
+    ev["h"] = project.snapshot(objs, payload=(ev["cls"] == "expr"))
+    if ev["cls"] == "expr":
         x = {"tolist": {}, "findtype": [], "findid": []}
         for o, name in LIST.items():
             x["tolist"][o] = [objs.of(n) for n in root.to_list(name)]
@@ -101,6 +100,9 @@ def domain(ctx):
         cases.append({"shape": s, "cls": "btn"})
         if shapes.size(s) <= (6 if ctx.quick else 8):
             cases.append({"shape": s, "cls": "expr", "dupids": shapes.size(s) % 2 == 0})
+        if shapes.size(s) <= 5:
+            cases.append({"shape": s, "cls": "uniform"})
+            cases.append({"shape": s, "cls": "btn_sameid"})
     rng = random.Random(ctx.seed)
     for _ in range(60 if ctx.quick else 600):   # seeded random larger shapes
         cases.append({"shape": random_shape(rng, rng.randint(n + 1, 14)), "cls": rng.choice(["btn", "expr"]), "dupids": True})
